@@ -17,12 +17,13 @@ RULE = ('tier 1: for each program (3-8 operations covering every mutating method
         'before or after the interrupted operation (bulk removals and documented multi-step methods: any state '
         'observed after one of their commits in a dry run), every key yields its complete value, check() reports only '
         'unknown files / empty directories, integrity ok, a write succeeds, check(fix=True) then check() is clean. '
+        'The directory\'s SQLite journal mode is WAL for about half of the programs and delete / truncate / persist for the rest. '
         'tier 1b: the same at every gate of opening (creating or re-opening) a Cache / Deque / Index / FanoutCache '
         'directory that was absent, empty or populated, followed by one file-backed write. tier 2: strace injects SIGKILL at the n-th file-mutating syscall inside SQLite. tier 3: SIGKILL from outside at '
         'random instants into a 2-thread child. evaluations = kill runs judged; distinct_nontrivial = distinct '
         '(program, kill gate) pairs + distinct (syscall, n) kills')
 DISTINCT = ('kill_points', 'syscall_kills', 'random_kills')
-REQUIRED = ('gate_kills_judged', 'kills_during_open', 'kills_during_first_write', 'programs_fully_enumerated', 'kills_inside_block', 'kills_at_file_ops',
+REQUIRED = ('gate_kills_judged', 'kills_during_open', 'kills_during_first_write', 'programs_wal', 'programs_rollback_journal', 'programs_fully_enumerated', 'kills_inside_block', 'kills_at_file_ops',
             'kills_at_sql_gates', 'debris_seen_unknown_files_or_dirs', 'syscall_kills_judged', 'random_kills_judged')
 ASSUMPTIONS = ('SIGKILL is process death, not power loss (page cache survives); durability against power failure is not '
                'examined', 'sequential semantics of each operation are taken from a dry run of the same program '
@@ -177,8 +178,12 @@ def random_program(rng):
     return (kind, maxlen, setup, prog)
 
 
-def build_initial(dc, path, kind, maxlen, setup):
-    cache = dc.Cache(path, **SETTINGS)
+JOURNALS = ['delete', 'truncate', 'persist']
+
+
+def build_initial(dc, path, kind, maxlen, setup, journal='wal'):
+    # the journal mode is stored in the directory: later handles (the child's, the judge's) inherit it
+    cache = dc.Cache(path, sqlite_journal_mode=journal, **SETTINGS)
     if kind == 'deque':
         obj = dc.Deque.fromcache(cache, maxlen=maxlen)
     elif kind == 'index':
@@ -245,10 +250,10 @@ def judge(dc, res, d, kind, maxlen, acceptable, label, wit):
     return True
 
 
-def enumerate_program(dc, sc, res, prog_id, spec, label, stride=1, offset=0):
+def enumerate_program(dc, sc, res, prog_id, spec, label, stride=1, offset=0, journal='wal'):
     kind, maxlen, setup, program = spec
     init = sc.new('init')
-    build_initial(dc, init, kind, maxlen, setup)
+    build_initial(dc, init, kind, maxlen, setup, journal)
     s_init = crash.contents(dc, init, kind)
     # dry run: gates, states after each op, commit states inside each op
     dry = sc.new('dry')
@@ -509,11 +514,11 @@ def child_env():
     return env
 
 
-def syscall_tier(dc, sc, res, rng, prog_id, spec, label, budget):
+def syscall_tier(dc, sc, res, rng, prog_id, spec, label, budget, journal='wal'):
     """SIGKILL injected by strace at the n-th file-mutating syscall of the workload phase (inside SQLite too)."""
     kind, maxlen, setup, program = spec
     init = sc.new('sinit')
-    build_initial(dc, init, kind, maxlen, setup)
+    build_initial(dc, init, kind, maxlen, setup, journal)
     s_init = crash.contents(dc, init, kind)
     dry = sc.new('sdry')
     crash.copy_dir(init, dry)
@@ -687,14 +692,22 @@ def run_shard(tier, seed, shard, nshards, res):
         for i, spec in enumerate(progs):
             if i % nshards != shard:
                 continue
-            enumerate_program(dc, sc, res, 'fixed%d' % i, spec, 'c07 fixed program %d' % i)
+            journal = 'wal' if (i + seed) % 2 == 0 else JOURNALS[(i // 2 + seed) % 3]
+            res.count('programs_journal_' + journal)
+            res.count('programs_wal' if journal == 'wal' else 'programs_rollback_journal')
+            enumerate_program(dc, sc, res, 'fixed%d-%s' % (i, journal), spec,
+                              'c07 fixed program %d journal=%s' % (i, journal), journal=journal)
         # random programs: every gate of each
         n = 1 if tier == 'quick' else 12
         for i in range(n):
             rng = common.rng_for(seed, 'c07', shard, i)
             spec = random_program(rng)
+            journal = rng.choice(['wal', 'wal'] + JOURNALS)
+            res.count('programs_journal_' + journal)
+            res.count('programs_wal' if journal == 'wal' else 'programs_rollback_journal')
             enumerate_program(dc, sc, res, 'rand-%d-%d-%d' % (seed, shard, i), spec,
-                              'c07 random program seed=%d shard=%d i=%d' % (seed, shard, i))
+                              'c07 random program seed=%d shard=%d i=%d journal=%s' % (seed, shard, i, journal),
+                              journal=journal)
             if res.counters.get('violations_raw', 0) > 12:
                 return
         # tier 1b: kills while the directory is being created / re-opened, one variant per shard
@@ -711,8 +724,10 @@ def run_shard(tier, seed, shard, nshards, res):
             spec = progs[(shard + seed) % len(progs)] if rng.random() < 0.6 else random_program(rng)
             if spec[0] == 'cache' and len(spec[2]) > 50:
                 spec = progs[0]
-            syscall_tier(dc, sc, res, rng, 'sys-%d-%d' % (seed, shard), spec, 'c07 syscall tier seed=%d shard=%d' % (seed, shard),
-                         budget=3 if tier == 'quick' else 120)
+            journal = rng.choice(['wal'] + JOURNALS)
+            syscall_tier(dc, sc, res, rng, 'sys-%d-%d-%s' % (seed, shard, journal), spec,
+                         'c07 syscall tier seed=%d shard=%d journal=%s' % (seed, shard, journal),
+                         budget=3 if tier == 'quick' else 120, journal=journal)
         else:
             res.inconclusive.append('strace is not installed: the syscall-kill tier did not run')
         # tier 3: SIGKILL from outside at random instants into a 2-thread child
